@@ -473,6 +473,11 @@ struct FnEmitter {
         } else {
           dk = "global";
           o.str("qname", C.qname(D));
+          // a constexpr / const integral global with a constant initialiser: its value
+          if (!DR->isValueDependent() && VD->getType().isConstQualified() && VD->getType()->isIntegralOrEnumerationType()) {
+            Expr::EvalResult R;
+            if (DR->EvaluateAsInt(R, *C.AC, Expr::SE_NoSideEffects)) o.num("cval", R.Val.getInt().getExtValue());
+          }
         }
         if (DR->refersToEnclosingVariableOrCapture()) o.boolean("captured", true);
       } else if (auto* EC = dyn_cast<EnumConstantDecl>(D)) {
@@ -526,6 +531,12 @@ struct FnEmitter {
       o.str("op", B->getOpcodeStr());
       o.num("l", visit(B->getLHS()));
       o.num("r", visit(B->getRHS()));
+      // an arithmetic expression over literals / constexpr names (1 << kBits): its value
+      if (!B->isValueDependent() && !B->isAssignmentOp() && !B->isLogicalOp() && !B->isComparisonOp() &&
+          B->getType()->isIntegralOrEnumerationType()) {
+        Expr::EvalResult R;
+        if (B->EvaluateAsInt(R, *C.AC, Expr::SE_NoSideEffects)) o.num("cval", R.Val.getInt().getExtValue());
+      }
     } else if (auto* B = dyn_cast<CXXRewrittenBinaryOperator>(S)) {
       // C++20 rewritten comparison (a < b  ==>  (a <=> b) < 0): keep the
       // operator as written, with the operands as written
